@@ -42,6 +42,7 @@ def build(prop):
         tasks.extend(m.tasks(eng))
     eng.carry = {role: {p for p, roles in PROP_ROLES.items() if roles is None or role in roles}
                  for role in CARRIED_ROLES}
+    eng.carry_c07 = (set(EVALUATOR_ROLES), set(ALL_PROPS))
     for t in tasks:
         if t.label.endswith(':SqParser.parse'):
             # SqParser.eval (and everything checked through it) assumes the contract of parse at its call site
@@ -127,7 +128,8 @@ PROP_ROLES = {
     'C01': EVAL_ROLES | {'scoped_dict_method', 'sq_parser'},
     'C02': EVAL_ROLES | {'sq_parser'}, 'C03': EVAL_ROLES | {'sq_parser', 'parser_action'},
     'C04': EVAL_ROLES | {'sq_parser'}, 'C05': {'builtin', 'helper', 'sq_parser'},
-    'C06': {'parser_action', 'token_rule', 'sq_parser'},
+    # the tree parse() hands out is also what the evaluator is given: it must not be rewritten behind the parser's back
+    'C06': {'parser_action', 'token_rule', 'sq_parser', 'op_override', 'op_base_as_node', 'closure'},
     'C07': None, 'C08': EVAL_ROLES | {'token_rule'},
     'C09': {'op_override', 'closure', 'parser_action', 'builtin', 'helper'},
     'C10': EVAL_ROLES | {'scoped_dict_method', 'sq_parser'},
@@ -140,10 +142,15 @@ PROP_ROLES = {
 
 # every property is about what eval / parse / list_names do with a TEXT: each relies on the tokens and on the tree
 # the grammar actions build (their contracts are carried by every property, see Exec.prove)
+# ... and on what the evaluator makes of that tree: the statement of every property is phrased over the values and
+# effects the reference semantics (C07) give to a program, so the C07 clauses of the evaluator nodes, of the closure
+# and of the scope stack are carried by every property (their other clauses - budget, scoping discipline, frames -
+# stay with their own properties), and so is the abstract contract of Op.eval that every node refines
+EVALUATOR_ROLES = {'op_base', 'op_base_as_node', 'op_override', 'closure', 'scoped_dict_method'}
 for _p, _roles in PROP_ROLES.items():
     if _roles is not None:
-        PROP_ROLES[_p] = set(_roles) | {'parser_action', 'token_rule'}
-CARRIED_ROLES = ('helper', 'scoped_dict_method', 'parser_action', 'token_rule')
+        PROP_ROLES[_p] = set(_roles) | {'parser_action', 'token_rule'} | EVALUATOR_ROLES
+CARRIED_ROLES = ('helper', 'scoped_dict_method', 'parser_action', 'token_rule', 'op_base')
 
 
 def relevant_tasks(prop, tasks):
